@@ -173,6 +173,9 @@ func init() {
 				plans = append(plans, q)
 			}
 		}
+		// two and three oversize responses of different sizes in one environment (each error names its own size)
+		plans = append(plans, plan{respSize: [3]int{limit + 1, limit + 100, 3}, evSize: [3]int{5, 6, 7}})
+		plans = append(plans, plan{respSize: [3]int{2 * limit, limit + 1, limit + 2}, evSize: [3]int{5, limit, 7}})
 		if tier == "thorough" {
 			// mixed pairs: oversized response followed / preceded by boundary sizes, and oversize event + oversize response together
 			for _, a := range []int{limit, limit + 1, 2 * limit} {
